@@ -25,11 +25,13 @@ EXPECTED_EXTRACTABLE = [
     'clustering_coef_bd', 'clustering_coef_wd', 'clustering_coef_wu',
     'transitivity_bu', 'transitivity_bd', 'transitivity_wu', 'transitivity_wd',
     'modularity_und', 'modularity_dir', 'modularity_und_sign',
-    'pagerank_centrality', 'diffusion_efficiency', 'subgraph_centrality', 'eigenvector_centrality_und']
+    'pagerank_centrality', 'diffusion_efficiency', 'subgraph_centrality', 'eigenvector_centrality_und',
+    'binarize', 'nbs_bct']
 MODULE_OF = {'bct/algorithms/degree.py': 'bct.algorithms.degree', 'bct/algorithms/physical_connectivity.py': 'bct.algorithms.physical_connectivity',
              'bct/algorithms/clustering.py': 'bct.algorithms.clustering', 'bct/algorithms/modularity.py': 'bct.algorithms.modularity',
              'bct/utils/miscellaneous_utilities.py': 'bct.utils.miscellaneous_utilities',
-             'bct/algorithms/centrality.py': 'bct.algorithms.centrality', 'bct/algorithms/efficiency.py': 'bct.algorithms.efficiency'}
+             'bct/algorithms/centrality.py': 'bct.algorithms.centrality', 'bct/algorithms/efficiency.py': 'bct.algorithms.efficiency',
+             'bct/utils/other.py': 'bct.utils.other', 'bct/nbs.py': 'bct.nbs'}
 EXTRA_FUNCTION_FILES = {'cuberoot': 'bct/utils/miscellaneous_utilities.py'}
 
 DROPPED = [
@@ -37,6 +39,7 @@ DROPPED = [
     "lean extraction: dtype, decorators, docstrings, imports, .copy()/aliasing (value semantics; in-place stores through views or into a caller's array are refused), shape errors and exceptions are dropped",
     "lean extraction: cuberoot is an abstract cbrt : ℝ → ℝ with cbrt x ^ 3 = x, cbrt 0 = 0, cbrt 1 = 1 (its source must still read sign(x)*|x|^(1/3)); np.unique(., return_inverse=True)[1] is an abstract `canon` with canon c x = canon c y ↔ c x = c y",
     "lean extraction (C18): scipy.linalg.solve / expm / eig, np.argmax and the callee mean_first_passage_time are ABSTRACT functions; their contracts (B·r0 = b for the one call made; eigen-equation; argmax is a largest entry) are explicit hypotheses of the theorems that use them — assumed contracts on a dependency; complex parts of eig results are dropped (np.real is the identity)",
+    "lean extraction (C19): the closures ttest2_stat_only / ttest_paired_stat_only of nbs_bct are extracted on their own (arguments: real vectors of lengths n1, n2 / n; tail fixed per definition); np.sqrt is an abstract function ℝ → ℝ; np.ptp(v) == 0 is modelled as 'all entries equal'; the p-value theorem is about the single statement pvals[i] = ... with null, sz_links, i free (null is taken to have k entries)",
     "lean extraction: modularity_und/_dir: only the given-partition path (kci is a label vector); modularity_und_sign: qtype='sta', the loop-accumulated Kn0/Kn1 are free parameters",
 ]
 
